@@ -441,3 +441,376 @@ Proof.
   intros H. unfold cont_elem, rename. apply relabel_agree.
   intros t r c Ht Hr Hc. simpl. unfold on_cell. simpl. apply (H (t_name t) r c); auto. apply In_rows_of; eauto.
 Qed.
+
+(* ------------------------------------------------------------------ no dangling junction reference *)
+Local Close Scope Z_scope.
+
+Definition special (tn : string) : bool :=
+  String.eqb tn "junction" || String.eqb tn "junction_geodata" || String.eqb tn "pipe_geodata" || prefix "res_" tn.
+(* label-only tables carry no reference cells *)
+Definition plain (n : net) : Prop := forall tn r, special tn = true -> In r (rows_of tn n) -> r_cells r = [].
+(* every junction reference of the net is a column the operation knows *)
+Definition covers (f : selector) (n : net) : Prop := allcells (fun tn col k => k = KJ -> f tn col k = true) n.
+
+Lemma plain_filter_rows k n : plain n -> plain (filter_rows k n).
+Proof. intros H tn r Hs Hr. rewrite rows_of_filter_rows in Hr. apply filter_In in Hr. apply (H tn); tauto. Qed.
+
+Lemma plain_map_cells (lab : string -> row -> Z) (g : string -> cell -> cell) n :
+  plain n -> plain (map_rows (fun tn r => mkRow (lab tn r) (map (g tn) (r_cells r))) n).
+Proof.
+  intros H tn r' Hs Hr. rewrite rows_of_map_rows in Hr. apply in_map_iff in Hr. destruct Hr as [r [<- Hr]].
+  simpl. now rewrite (H tn r Hs Hr).
+Qed.
+
+Lemma plain_relabel e rho sel n : plain n -> plain (relabel e rho sel n).
+Proof. apply (plain_map_cells (fun tn r => if fam e tn then rho (r_label r) else r_label r)
+                (fun tn c => if sel tn c then set_val c (rho (c_val c)) else c)). Qed.
+
+Lemma plain_redirect sel j1 js n : plain n -> plain (redirect sel j1 js n).
+Proof. apply (plain_map_cells (fun _ r => r_label r)
+                (fun tn c => if sel tn c && memz (c_val c) js then set_val c j1 else c)). Qed.
+
+Lemma plain_cont_all s cs order start n : plain n -> plain (cont_all s cs order start n).
+Proof. revert n. induction order as [|e r IH]; intros n H; simpl; auto. apply IH. now apply plain_relabel. Qed.
+
+Lemma plain_step s o n : plain n -> plain (step s o n).
+Proof.
+  intros H. destruct o; simpl.
+  - now apply plain_relabel.
+  - now apply plain_relabel.
+  - now apply plain_cont_all.
+  - now apply plain_filter_rows, plain_redirect.
+  - now apply plain_filter_rows.
+  - destruct cascade; repeat apply plain_filter_rows; auto.
+  - now apply plain_filter_rows.
+  - now apply plain_filter_rows.
+Qed.
+
+Lemma junction_special : special "junction" = true. Proof. reflexivity. Qed.
+
+(* filtering rows keeps integrity when the junction rows still referenced are kept *)
+Lemma filter_RI_J k n : RI_J n ->
+  (forall tn r c r0, In r (rows_of tn n) -> k tn r = true -> In c (r_cells r) -> c_kind c = KJ ->
+      In r0 (rows_of "junction" n) -> r_label r0 = c_val c -> k "junction" r0 = true) ->
+  RI_J (filter_rows k n).
+Proof.
+  intros H Hk tn r c Hr Hc Hkd. rewrite rows_of_filter_rows in Hr. apply filter_In in Hr. destruct Hr as [Hr Hkr].
+  pose proof (H tn r c Hr Hc Hkd) as Hin. rewrite labels_of_rows_of in *. apply in_map_iff in Hin.
+  destruct Hin as [r0 [E Hr0]]. rewrite rows_of_filter_rows. apply in_map_iff. exists r0. split; auto.
+  apply filter_In. split; auto. eapply Hk; eauto.
+Qed.
+
+Lemma hit_plain sel js tn r n : plain n -> special tn = true -> In r (rows_of tn n) -> hit sel js tn r = false.
+Proof. intros H Hs Hr. unfold hit. now rewrite (H tn r Hs Hr). Qed.
+
+Lemma drop_elems_RI_J sel js n : plain n -> RI_J n -> RI_J (drop_elems sel js n).
+Proof.
+  intros Hp H. apply filter_RI_J; auto. intros tn r c r0 Hr Hk Hc Hkd Hr0 E.
+  rewrite (hit_plain sel js "junction" r0 n Hp junction_special Hr0). reflexivity.
+Qed.
+
+Lemma drop_pipes_RI_J ps n : RI_J n -> RI_J (drop_labels (fam "pipe") ps n).
+Proof. intros H. apply filter_RI_J; auto. Qed.
+
+Lemma hit_false_cell sel js tn r c : hit sel js tn r = false -> In c (r_cells r) -> sel tn c = true ->
+  memz (c_val c) js = false.
+Proof.
+  intros Hh Hc Hs. unfold hit in Hh. destruct (memz (c_val c) js) eqn:M; auto.
+  assert (existsb (fun c0 => sel tn c0 && memz (c_val c0) js) (r_cells r) = true).
+  { apply existsb_exists. exists c. split; auto. now rewrite Hs, M. }
+  congruence.
+Qed.
+
+Lemma drop_junctions_RI_J f js n : plain n -> covers f n -> RI_J n ->
+  RI_J (drop_elems (on_cell f) js (drop_labels (fam "junction") js n)).
+Proof.
+  intros Hp Hc H tn r c Hr Hcc Hkd.
+  unfold drop_elems, drop_labels in *. rewrite rows_of_filter_rows in Hr. apply filter_In in Hr.
+  destruct Hr as [Hr Hk2]. rewrite rows_of_filter_rows in Hr. apply filter_In in Hr. destruct Hr as [Hr Hk1].
+  apply andb_true_iff in Hk2. destruct Hk2 as [Hnh _]. apply negb_true_iff in Hnh.
+  assert (Hsel : on_cell f tn c = true) by (unfold on_cell; apply (Hc tn r c Hr Hcc Hkd)).
+  pose proof (hit_false_cell _ _ _ _ _ Hnh Hcc Hsel) as Hnot.
+  pose proof (H tn r c Hr Hcc Hkd) as Hin. rewrite labels_of_rows_of in *. apply in_map_iff in Hin.
+  destruct Hin as [r0 [E Hr0]]. rewrite !rows_of_filter_rows. apply in_map_iff. exists r0. split; auto.
+  apply filter_In. split.
+  - apply filter_In. split; auto. rewrite E, Hnot. now rewrite andb_false_r.
+  - unfold hit. rewrite (Hp "junction" r0 junction_special Hr0). reflexivity.
+Qed.
+
+Lemma select_RI_J f js n : plain n -> covers f n -> RI_J n -> RI_J (select (on_cell f) js n).
+Proof.
+  intros Hp Hc H. apply filter_RI_J; auto. intros tn r c r0 Hr Hk Hcc Hkd Hr0 E.
+  change (memz (r_label r0) js = true). rewrite E.
+  destruct (special tn) eqn:S.
+  { rewrite (Hp tn r S Hr) in Hcc. contradiction. }
+  unfold special in S. repeat (apply orb_false_iff in S; destruct S as [S ?]).
+  rewrite S, H1, H0 in Hk. simpl in Hk. rewrite H2 in Hk.
+  unfold keep_row in Hk. apply andb_true_iff in Hk. destruct Hk as [_ Hall].
+  rewrite forallb_forall in Hall. specialize (Hall c Hcc).
+  assert (Hsel : on_cell f tn c = true) by (unfold on_cell; apply (Hc tn r c Hr Hcc Hkd)).
+  rewrite Hsel in Hall. exact Hall.
+Qed.
+
+Lemma others_spec j1 js x : In x (others j1 js) <-> In x js /\ x <> j1.
+Proof.
+  unfold others. rewrite filter_In. split; intros [A B]; split; auto.
+  - intros ->. rewrite Z.eqb_refl in B. discriminate.
+  - apply negb_true_iff. now apply Z.eqb_neq.
+Qed.
+
+Lemma fuse_RI_J f j1 js n : covers f n -> RI_J n -> In j1 (labels_of "junction" n) ->
+  RI_J (drop_labels (fam "junction") (others j1 js) (redirect (on_cell f) j1 (others j1 js) n)).
+Proof.
+  intros Hc H Hj1 tn r' c' Hr Hcc Hkd.
+  unfold drop_labels, redirect in *. rewrite rows_of_filter_rows, rows_of_map_rows in Hr.
+  apply filter_In in Hr. destruct Hr as [Hr _]. apply in_map_iff in Hr. destruct Hr as [r [<- Hr]].
+  simpl in Hcc. apply in_map_iff in Hcc. destruct Hcc as [c [<- Hcc]].
+  assert (Surv : forall v, In v (labels_of "junction" n) -> memz v (others j1 js) = false ->
+     In v (labels_of "junction" (filter_rows (fun tn0 r0 => negb (fam "junction" tn0 && memz (r_label r0) (others j1 js)))
+        (map_rows (fun tn0 r0 => mkRow (r_label r0)
+           (map (fun c0 => if on_cell f tn0 c0 && memz (c_val c0) (others j1 js) then set_val c0 j1 else c0) (r_cells r0))) n)))).
+  { intros v Hv Hm. rewrite labels_of_rows_of in *. apply in_map_iff in Hv. destruct Hv as [r0 [E Hr0]].
+    rewrite rows_of_filter_rows, rows_of_map_rows. apply in_map_iff.
+    exists (mkRow (r_label r0) (map (fun c0 => if on_cell f "junction" c0 && memz (c_val c0) (others j1 js) then set_val c0 j1 else c0) (r_cells r0))).
+    split; auto. apply filter_In. split.
+    - apply in_map_iff. exists r0. split; auto.
+    - simpl. rewrite E, Hm. reflexivity. }
+  destruct (on_cell f tn c && memz (c_val c) (others j1 js)) eqn:B.
+  - simpl. apply Surv; auto. apply memz_false. intros Hin. apply others_spec in Hin. destruct Hin as [_ Hne]. now apply Hne.
+  - assert (Hkc : c_kind c = KJ) by exact Hkd.
+    assert (Hsel : on_cell f tn c = true) by (unfold on_cell; apply (Hc tn r c Hr Hcc Hkc)).
+    rewrite Hsel in B. simpl in B. apply Surv; auto. eapply H; eauto.
+Qed.
+
+Lemma relabel_RI_J_same e rho sel n : fam e "junction" = true ->
+  (forall tn r c, In r (rows_of tn n) -> In c (r_cells r) -> c_kind c = KJ -> sel tn c = true) ->
+  RI_J n -> RI_J (relabel e rho sel n).
+Proof.
+  intros Hf Hs H tn r' c' Hr Hcc Hkd. rewrite labels_of_relabel, Hf.
+  unfold relabel in Hr. rewrite rows_of_map_rows in Hr. apply in_map_iff in Hr. destruct Hr as [r [<- Hr]].
+  simpl in Hcc. apply in_map_iff in Hcc. destruct Hcc as [c [<- Hcc]].
+  destruct (sel tn c) eqn:S.
+  - simpl in *. apply in_map. eapply H; eauto.
+  - rewrite (Hs tn r c Hr Hcc Hkd) in S. discriminate.
+Qed.
+
+Lemma relabel_RI_J_other e rho sel n : fam e "junction" = false ->
+  (forall tn r c, In r (rows_of tn n) -> In c (r_cells r) -> sel tn c = true -> c_kind c <> KJ) ->
+  RI_J n -> RI_J (relabel e rho sel n).
+Proof.
+  intros Hf Hs H tn r' c' Hr Hcc Hkd. rewrite labels_of_relabel, Hf.
+  unfold relabel in Hr. rewrite rows_of_map_rows in Hr. apply in_map_iff in Hr. destruct Hr as [r [<- Hr]].
+  simpl in Hcc. apply in_map_iff in Hcc. destruct Hcc as [c [<- Hcc]].
+  destruct (sel tn c) eqn:S.
+  - simpl in Hkd. exfalso. eapply Hs; eauto.
+  - eapply H; eauto.
+Qed.
+
+(* a semantics never treats a junction reference as a pipe reference *)
+Definition selP_sane (s : sem) : Prop := forall tn col k, selP s tn col k = true -> k <> KJ.
+Lemma model_sem_sane : selP_sane model_sem.
+Proof. intros tn col k H. simpl in H. destruct k; simpl in H; try congruence. now rewrite andb_false_r in H. Qed.
+Lemma spec_sem_sane : selP_sane spec_sem.
+Proof. intros tn col k H. simpl in H. destruct k; simpl in H; congruence. Qed.
+
+Definition elem_guard (e : string) : Prop := e = "junction" \/ fam e "junction" = false.
+
+Lemma relabel_sel_for_RI_J s cs e rho n : selP_sane s -> elem_guard e -> covers (selJ s cs) n ->
+  RI_J n -> RI_J (relabel e rho (sel_for s cs e) n).
+Proof.
+  intros Hs [-> | Hf] Hc H.
+  - apply relabel_RI_J_same; auto. intros tn r c Hr Hcc Hk. simpl. unfold on_cell. now apply (Hc tn r c).
+  - apply relabel_RI_J_other; auto. intros tn r c Hr Hcc Hsel. unfold sel_for in Hsel.
+    destruct (String.eqb e "junction") eqn:E.
+    + apply String.eqb_eq in E. subst. discriminate.
+    + destruct (String.eqb e "pipe"); [|discriminate]. unfold on_cell in Hsel. eapply Hs; eauto.
+Qed.
+
+Definition ri_guard (o : op) (n : net) : Prop :=
+  match o with
+  | Reindex _ e _ | ContElem _ e _ => elem_guard e
+  | ContAll _ order _ => Forall elem_guard order
+  | Fuse _ j1 _ => In j1 (labels_of "junction" n)
+  | DropJ _ _ cascade => cascade = true
+  | _ => True
+  end.
+Definition cover_hyp (s : sem) (o : op) (n : net) : Prop :=
+  match o with DropElems _ _ | DropP _ => True | _ => covers (selJ s (cs_of o)) n end.
+
+Lemma cont_all_RI_J s cs order start n : selP_sane s -> Forall elem_guard order -> covers (selJ s cs) n ->
+  RI_J n -> RI_J (cont_all s cs order start n).
+Proof.
+  intros Hs. revert n. induction order as [|e r IH]; intros n HF Hc H; simpl; auto.
+  inversion HF; subst. apply IH; auto.
+  - unfold covers, cont_elem. now apply allcells_relabel.
+  - now apply relabel_sel_for_RI_J.
+Qed.
+
+Lemma step_RI_J s o n : selP_sane s -> plain n -> cover_hyp s o n -> ri_guard o n -> RI_J n -> RI_J (step s o n).
+Proof.
+  intros Hs Hp Hc Hg H. destruct o; simpl in *.
+  - now apply relabel_sel_for_RI_J.
+  - now apply relabel_sel_for_RI_J.
+  - now apply cont_all_RI_J.
+  - now apply fuse_RI_J.
+  - now apply select_RI_J.
+  - subst cascade. now apply drop_junctions_RI_J.
+  - now apply drop_elems_RI_J.
+  - now apply drop_pipes_RI_J.
+Qed.
+
+Fixpoint guards (s : sem) (ops : list op) (n : net) : Prop :=
+  match ops with [] => True | o :: r => ri_guard o n /\ guards s r (step s o n) end.
+
+Lemma cover_hyp_step s o o' n : cover_hyp s o n -> cover_hyp s o (step s o' n).
+Proof. destruct o; simpl; auto; intros H; unfold covers in *; now apply allcells_step. Qed.
+
+Lemma exec_RI_J s ops n : selP_sane s -> plain n -> (forall o, In o ops -> cover_hyp s o n) -> guards s ops n ->
+  RI_J n -> RI_J (exec s ops n).
+Proof.
+  intros Hs. revert n. induction ops as [|o r IH]; intros n Hp Hc Hg H; simpl; auto.
+  destruct Hg as [G1 G2]. apply IH; auto.
+  - now apply plain_step.
+  - intros o' Ho'. apply cover_hyp_step. apply Hc. now right.
+  - apply step_RI_J; auto. apply Hc. now left.
+Qed.
+
+(* nets without pipe references: nothing can dangle on the pipe side *)
+Definition no_pipe_refs (n : net) : Prop := allcells (fun _ _ k => k <> KP) n.
+Lemma no_pipe_refs_RI_P n : no_pipe_refs n -> RI_P n.
+Proof. intros H tn r c Hr Hc Hk. exfalso. exact (H tn r c Hr Hc Hk). Qed.
+
+Lemma exec_RI_partial s ops n : selP_sane s -> plain n -> (forall o, In o ops -> cover_hyp s o n) ->
+  guards s ops n -> no_pipe_refs n -> RI n -> RI (exec s ops n).
+Proof.
+  intros Hs Hp Hc Hg Hn [HJ _]. split.
+  - now apply exec_RI_J.
+  - apply no_pipe_refs_RI_P. unfold no_pipe_refs. now apply allcells_exec.
+Qed.
+
+(* ------------------------------------------------------------------ frame *)
+(* the dropping / selecting operations only remove rows: every row left is an unchanged row of the net *)
+Definition removes_only (o : op) : bool :=
+  match o with Select _ _ | DropJ _ _ _ | DropElems _ _ | DropP _ => true | _ => false end.
+
+Lemma frame_rows_unchanged s o n tn r : removes_only o = true -> In r (rows_of tn (step s o n)) -> In r (rows_of tn n).
+Proof.
+  intros Hr H. destruct o; try discriminate; simpl in H.
+  - unfold select in H. rewrite rows_of_filter_rows in H. apply filter_In in H. tauto.
+  - destruct cascade.
+    + unfold drop_elems, drop_labels in H. rewrite !rows_of_filter_rows in H.
+      apply filter_In in H. destruct H as [H _]. apply filter_In in H. tauto.
+    + unfold drop_labels in H. rewrite rows_of_filter_rows in H. apply filter_In in H. tauto.
+  - unfold drop_elems in H. rewrite rows_of_filter_rows in H. apply filter_In in H. tauto.
+  - unfold drop_labels in H. rewrite rows_of_filter_rows in H. apply filter_In in H. tauto.
+Qed.
+
+(* an element row that references none of the dropped junctions (through a column the operation knows)
+   is still there after drop_junctions / drop_elements_at_junctions *)
+Lemma hit_true_cell sel js tn r : hit sel js tn r = true ->
+  exists c, In c (r_cells r) /\ sel tn c = true /\ In (c_val c) js.
+Proof.
+  intros H. unfold hit in H. apply existsb_exists in H. destruct H as [c [Hc B]].
+  apply andb_true_iff in B. destruct B as [B1 B2]. exists c. repeat split; auto. now apply memz_In.
+Qed.
+
+Lemma drop_junctions_keeps_untouched s cs js n tn r :
+  parent tn = None -> fam "junction" tn = false ->
+  In r (rows_of tn n) ->
+  (forall c, In c (r_cells r) -> selJ s cs tn (c_col c) (c_kind c) = true -> ~ In (c_val c) js) ->
+  In r (rows_of tn (step s (DropJ cs js true) n)).
+Proof.
+  intros Hpar Hfam Hr Hun. simpl. unfold drop_elems, drop_labels. rewrite !rows_of_filter_rows.
+  apply filter_In. split.
+  - apply filter_In. split; auto. now rewrite Hfam.
+  - rewrite Hpar. rewrite andb_true_r. apply negb_true_iff.
+    destruct (hit (on_cell (selJ s cs)) js tn r) eqn:Hh; auto.
+    apply hit_true_cell in Hh. destruct Hh as [c [Hc [Hs Hin]]]. exfalso. exact (Hun c Hc Hs Hin).
+Qed.
+
+(* ------------------------------------------------------------------ fuse: what changes, cell by cell *)
+Lemma fuse_cells s cs j1 js n tn r' :
+  In r' (rows_of tn (step s (Fuse cs j1 js) n)) ->
+  exists r, In r (rows_of tn n) /\ r_label r' = r_label r /\
+    r_cells r' = map (fun c => if selJ s cs tn (c_col c) (c_kind c) && memz (c_val c) (others j1 js)
+                               then set_val c j1 else c) (r_cells r).
+Proof.
+  simpl. unfold drop_labels, redirect. rewrite rows_of_filter_rows, rows_of_map_rows.
+  intros H. apply filter_In in H. destruct H as [H _]. apply in_map_iff in H. destruct H as [r [<- Hr]].
+  exists r. repeat split; auto.
+Qed.
+
+Lemma fuse_junction_rows s cs j1 js n l :
+  In l (labels_of "junction" (step s (Fuse cs j1 js) n)) <->
+  In l (labels_of "junction" n) /\ ~ In l (others j1 js).
+Proof.
+  simpl. unfold drop_labels, redirect. rewrite !labels_of_rows_of, rows_of_filter_rows, rows_of_map_rows.
+  rewrite !in_map_iff. split.
+  - intros [r' [E H]]. apply filter_In in H. destruct H as [H K]. apply in_map_iff in H.
+    destruct H as [r [<- Hr]]. simpl in *. subst l. split; [eauto|].
+    apply negb_true_iff in K. apply memz_false. exact K.
+  - intros [[r [E Hr]] Hn]. subst l.
+    exists (mkRow (r_label r) (map (fun c => if on_cell (selJ s cs) "junction" c && memz (c_val c) (others j1 js)
+                                             then set_val c j1 else c) (r_cells r))).
+    split; auto. apply filter_In. split.
+    + apply in_map_iff. exists r. auto.
+    + simpl. apply negb_true_iff. apply memz_false. exact Hn.
+Qed.
+
+(* ------------------------------------------------------------------ boolean checkers are sound (for witnesses) *)
+Lemma cells_ok_false p n : cells_ok p n = false ->
+  exists tn r c, In r (rows_of tn n) /\ In c (r_cells r) /\ p tn c = false.
+Proof.
+  unfold cells_ok. intros H.
+  destruct (forallb (fun t => forallb (fun r => forallb (p (t_name t)) (r_cells r)) (t_rows t)) n) eqn:E; [discriminate|].
+  clear H. induction n as [|t n IH]; simpl in E; [discriminate|].
+  apply andb_false_iff in E. destruct E as [E | E].
+  - assert (exists r, In r (t_rows t) /\ forallb (p (t_name t)) (r_cells r) = false) as [r [Hr Er]].
+    { induction (t_rows t) as [|r rs IHr]; simpl in E; [discriminate|].
+      apply andb_false_iff in E. destruct E as [E | E]; [exists r; simpl; auto|].
+      destruct (IHr E) as [r0 [H0 H1]]. exists r0. simpl; auto. }
+    assert (exists c, In c (r_cells r) /\ p (t_name t) c = false) as [c [Hc Ec]].
+    { induction (r_cells r) as [|c cs IHc]; simpl in Er; [discriminate|].
+      apply andb_false_iff in Er. destruct Er as [Er | Er]; [exists c; simpl; auto|].
+      destruct (IHc Er) as [c0 [H0 H1]]. exists c0. simpl; auto. }
+    exists (t_name t), r, c. repeat split; auto. apply In_rows_of. exists t. simpl. auto.
+  - destruct (IH E) as [tn [r [c [Hr [Hc Ep]]]]]. exists tn, r, c. repeat split; auto.
+    apply In_rows_of in Hr. destruct Hr as [t0 [H0 [H1 H2]]]. apply In_rows_of. exists t0. simpl. auto.
+Qed.
+
+Lemma ri_pb_false n : ri_pb n = false -> ~ RI_P n.
+Proof.
+  intros H HR. apply cells_ok_false in H. destruct H as [tn [r [c [Hr [Hc Ep]]]]].
+  apply orb_false_iff in Ep. destruct Ep as [E1 E2]. apply negb_false_iff in E1.
+  unfold is_kp in E1. destruct (c_kind c) eqn:K; try discriminate.
+  apply memz_false in E2. apply E2. eapply HR; eauto.
+Qed.
+
+Lemma ri_jb_false n : ri_jb n = false -> ~ RI_J n.
+Proof.
+  intros H HR. apply cells_ok_false in H. destruct H as [tn [r [c [Hr [Hc Ep]]]]].
+  apply orb_false_iff in Ep. destruct Ep as [E1 E2]. apply negb_false_iff in E1.
+  unfold is_kj in E1. destruct (c_kind c) eqn:K; try discriminate.
+  apply memz_false in E2. apply E2. eapply HR; eauto.
+Qed.
+
+Lemma cells_ok_true p n : cells_ok p n = true ->
+  forall tn r c, In r (rows_of tn n) -> In c (r_cells r) -> p tn c = true.
+Proof.
+  unfold cells_ok. intros H tn r c Hr Hc. apply In_rows_of in Hr. destruct Hr as [t [Ht [<- Hr]]].
+  rewrite forallb_forall in H. specialize (H t Ht). rewrite forallb_forall in H. specialize (H r Hr).
+  rewrite forallb_forall in H. now apply H.
+Qed.
+
+Lemma ri_b_RI n : ri_jb n = true -> ri_pb n = true -> RI n.
+Proof.
+  intros HJ HP. split; intros tn r c Hr Hc Hk.
+  - pose proof (cells_ok_true _ _ HJ tn r c Hr Hc) as E. unfold is_kj in E. rewrite Hk in E. simpl in E. now apply memz_In.
+  - pose proof (cells_ok_true _ _ HP tn r c Hr Hc) as E. unfold is_kp in E. rewrite Hk in E. simpl in E. now apply memz_In.
+Qed.
+
+Lemma exact_b_exact cs n : exact_b cs n = true -> exact cs n.
+Proof.
+  intros H tn r c Hr Hc. pose proof (cells_ok_true _ _ H tn r c Hr Hc) as E. apply eqb_prop in E.
+  rewrite E. unfold is_kj. now destruct (c_kind c).
+Qed.
